@@ -21,6 +21,9 @@ let () =
       ((match check_validity (z_of_hex cur) (z_of_hex ct) (z_of_hex ex) (z_of_hex kct) (n_of_hex ha) with
         | Valid -> "1" | _ -> "0"), out) | _ -> bad ());
   register "aead_nonce" (function [iv; c; out] -> (tb (chunk_nonce_impl (bt iv) (nat_of_int (int_of_string c))), out) | _ -> bad ());
+  register "aead_ad" (function [pre; kind; idx; total; _; out] ->
+      ((if kind = "f" then tb (final_ad (bt pre) (n_of_hex idx) (n_of_hex total)) else tb (chunk_ad (bt pre) (n_of_hex idx))), out)
+    | _ -> bad ());
   (* fields of a parsed signature object: path = sigparse | message | keyblock | prvblock *)
   register "sigfields" (function [path; body; out] ->
       let kc = (path = "keyblock" || path = "prvblock") in
